@@ -3,6 +3,7 @@ package harness
 import (
 	"context"
 	"fmt"
+	"math/big"
 	"runtime"
 	"sort"
 	"sync"
@@ -221,6 +222,265 @@ func c08RunRestage(t *testing.T, rc c08ScriptRecipe, em *Emitter) []c08Shot {
 	return shots
 }
 
+// c08CheckValues fills in what a check run determines besides the perform data — the hash of the check block, the gas
+// allowance, the fast gas price and the link price — choosing values whose JSON encodings are as short as possible
+// (class 0: hash bytes 0…9, one-digit numbers), as long as possible (class 2: hash bytes >= 100, numbers at the top of their
+// ranges) or anything (class 1).  All of them are what an honest pipeline can answer.
+func c08CheckValues(r *Rng, res *ocr2keepers.CheckResult, class int) {
+	switch class {
+	case 0:
+		for i := range res.Trigger.BlockHash {
+			res.Trigger.BlockHash[i] = byte(r.Intn(10))
+		}
+		res.GasAllocated = uint64(r.Range(1, 9))
+		res.FastGasWei = big.NewInt(int64(r.Intn(10)))
+		res.LinkNative = big.NewInt(int64(r.Intn(10)))
+	case 2:
+		for i := range res.Trigger.BlockHash {
+			res.Trigger.BlockHash[i] = byte(100 + r.Intn(156))
+		}
+		res.GasAllocated = ^uint64(0) - uint64(r.Intn(1000))
+		res.FastGasWei = new(big.Int).Sub(uint256MaxBig, big.NewInt(int64(r.Intn(1000))))
+		res.LinkNative = new(big.Int).Sub(uint256MaxBig, big.NewInt(int64(r.Intn(1000))))
+	default:
+		res.Trigger.BlockHash = genHash(r)
+		res.GasAllocated = uint64(r.Range(1, 5_000_000))
+		res.FastGasWei = new(big.Int).SetUint64(r.U64() % 1e12)
+		res.LinkNative = new(big.Int).SetUint64(r.U64() % 1e18)
+	}
+}
+
+// c08RunRecheck: the byte limit decides how many results an observation carries (about a hundred results with 5…10 KB of
+// perform data each, of uneven sizes), and BETWEEN two observations of one ten-sequence window staged results are replaced
+// through the result store by a re-check on a higher block: the same unit of work (same work id, same upkeep), but other
+// values in every field a check fills in — check block and hash, gas, prices, perform data of the same or of another
+// length.  "The result of work w" therefore changes its encoded length while w stays a candidate; whatever a hook keeps
+// about a result from one call to the next (within the window it keeps the shuffled ids) must not enter the measurement.
+//
+//   T1  node A stages the first checks                                    -> observation s0
+//   T2  a part is checked again (A replaces); node B joins and stages exactly what A holds now
+//                                                                         -> observation s1 (same window)
+//   T3  another part (of the current versions) is checked again on both   -> observation s2 (same window)
+//                                                                         -> observation s3 (next window, nothing new)
+//   T4  again                                                             -> observation s4
+func c08RunRecheck(t *testing.T, rc c08ScriptRecipe, em *Emitter) []c08Shot {
+	var wgFn types.WorkIDGenerator
+	r := NewRng(rc.Seed)
+	digest := genHash(r)
+	const N, F = 4, 1
+	nodes := [2]*c08SNode{}
+	for i := range nodes {
+		h := &c08Hook{}
+		sn := &c08SNode{hook: h, byWid: map[string]ocr2keepers.CheckResult{}, seen: map[string]time.Time{}, stagedAt: map[int]time.Time{},
+			rec: map[string]uint64{}, pending: map[string]bool{}, props: map[string]c08PropEntry{}, hist: ocr2keepers.BlockHistory{},
+			at: map[string]time.Time{}, exact: map[int]bool{}}
+		sn.Node = c08NewHookedNode(t, NodeOpts{N: N, F: F, Digest: digest, OracleID: i}, h, wgFn)
+		sn.Run.mu.Lock()
+		sn.Run.fn = sn.pipeline
+		sn.Run.mu.Unlock()
+		nodes[i] = sn
+	}
+	defer func() {
+		for _, n := range nodes {
+			n.Close()
+		}
+		time.Sleep(11 * time.Second)
+		synctest.Wait()
+	}()
+	time.Sleep(1637 * time.Millisecond)
+	A, B := nodes[0], nodes[1]
+	// check blocks just below a power of ten now and then: the re-check's block number gains a digit
+	height := []uint64{uint64(r.Range(1000, 100000)), 9_998, 99_999, 999_998}[r.Intn(4)]
+	var pool []ocr2keepers.CheckResult
+	var lens []int
+	add := func(res ocr2keepers.CheckResult) int {
+		pool = append(pool, res)
+		lens = append(lens, len(must(gojson.Marshal(res))))
+		for _, n := range nodes {
+			n.mu.Lock()
+			n.byWid[res.WorkID] = res
+			n.mu.Unlock()
+		}
+		return len(pool) - 1
+	}
+	class := func(first bool) int {
+		switch rc.Drift {
+		case "grow":
+			if first {
+				return 0
+			}
+			return 2
+		case "shrink":
+			if first {
+				return 2
+			}
+			return 0
+		}
+		return r.Intn(3)
+	}
+	pdLen := func() int {
+		switch r.Intn(8) {
+		case 0:
+			return 10_000 // the on-chain cap
+		case 1:
+			return r.Range(0, 3000)
+		}
+		return r.Range(5000, 10_000)
+	}
+	// ---- T1
+	cur := map[string]int{} // work id -> pool index of the version staged now
+	var wids []string
+	for i := 0; i < rc.NRes; i++ {
+		res := genResult(r, genUpkeepID(r, r.Chance(50)), height-uint64(r.Intn(2)))
+		c08CheckValues(r, &res, class(true))
+		res.PerformData = r.Bytes(pdLen())
+		cur[res.WorkID] = add(res)
+		wids = append(wids, res.WorkID)
+	}
+	view := make(ocr2keepers.BlockHistory, 0, 300)
+	for d, depth := 0, []int{0, 3, 100, 256, 300}[r.Intn(5)]; d < depth; d++ {
+		view = append(view, ocr2keepers.BlockKey{Number: ocr2keepers.BlockNumber(height + 20 - uint64(d)), Hash: genHash(r)})
+	}
+	if rc.Fit > 0 && rc.NRes <= ocr2keepersv3.ObservationPerformablesLimit {
+		// len(observation) = base - len("null") + len("[]") + sum(len(result_i)) + (n-1); base64 moves in steps of 4 bytes
+		empty := ocr2keepersv3.AutomationObservation{UpkeepProposals: []ocr2keepers.CoordinatedBlockProposal{}, BlockHistory: view[:min(len(view), ocr2keepersv3.ObservationBlockHistoryLimit)]}
+		base := len(must(empty.Encode()))
+		total := func() int {
+			t := base - 4 + 2 + len(wids) - 1
+			for _, w := range wids {
+				t += lens[cur[w]]
+			}
+			return t
+		}
+		target := ocr2keepersv3.MaxObservationLength - rc.Fit
+		for pass := 0; pass < 4; pass++ {
+			for _, w := range wids {
+				diff := target - total()
+				if diff >= 0 && diff < 4 {
+					break
+				}
+				k := cur[w]
+				n := len(pool[k].PerformData) + diff*3/4
+				if diff < 0 {
+					n -= 3
+				}
+				n = max(0, min(10_000, n))
+				pool[k].PerformData = r.Bytes(n)
+				lens[k] = len(must(gojson.Marshal(pool[k])))
+				for _, nd := range nodes {
+					nd.mu.Lock()
+					nd.byWid[w] = pool[k]
+					nd.mu.Unlock()
+				}
+			}
+		}
+		if d := target - total(); d < 0 || d >= 4 {
+			t.Fatalf("c08 recheck: cannot place %d results %d bytes below the limit (off by %d)", rc.NRes, rc.Fit, d)
+		}
+	}
+	var first []int
+	for _, w := range wids {
+		first = append(first, cur[w])
+	}
+	perm := r.Perm(len(first))
+	feed0 := make([]int, len(first))
+	for i, j := range perm {
+		feed0[i] = first[j]
+	}
+	A.feed(pool, feed0)
+	for _, n := range nodes {
+		n.Blocks.Publish(view)
+		n.hist = view
+	}
+	time.Sleep(2130 * time.Millisecond)
+	var shots []c08Shot
+	info := map[string]int{}
+	shoot := func(seq uint64) {
+		synctest.Wait()
+		nx := [2]c08NodeX{A.view(pool, nil), B.view(pool, nil)}
+		ic := map[string]int{}
+		for k, v := range info {
+			ic[k] = v
+		}
+		shots = append(shots, c08TakeShot(digest, F, seq, pool, lens, nx, nil, [2]*Node{A.Node, B.Node}, ic, nil, rc.Evals))
+		em.Hit(fmt.Sprintf("script-seq%%10=%d", seq%10))
+	}
+	// recheck replaces the staged version of a random part of the work on the given nodes
+	recheck := func(percent int, bJoins bool) {
+		grown, shrunk, n := 0, 0, 0
+		var feed []int
+		for _, w := range wids {
+			k := cur[w]
+			if !r.Chance(percent) {
+				continue
+			}
+			res := pool[k]
+			res.Trigger.BlockNumber += ocr2keepers.BlockNumber(r.Range(1, 3))
+			c08CheckValues(r, &res, class(false))
+			mode := rc.PDMode
+			if mode == "mixed" || mode == "" {
+				mode = []string{"same-len", "other-len"}[r.Intn(2)]
+			}
+			switch {
+			case mode == "same-len":
+				res.PerformData = r.Bytes(len(res.PerformData))
+			case r.Bool(): // another length close to the old one
+				res.PerformData = r.Bytes(max(0, min(10_000, len(res.PerformData)+r.Range(-40, 60))))
+			default:
+				res.PerformData = r.Bytes(pdLen())
+			}
+			k2 := add(res)
+			if d := lens[k2] - lens[k]; d > 0 {
+				grown += d
+			} else {
+				shrunk -= d
+			}
+			n++
+			A.unstage(k)
+			if !bJoins {
+				B.unstage(k)
+			}
+			cur[w] = k2
+			feed = append(feed, k2)
+		}
+		A.feed(pool, feed)
+		if bJoins { // everything A holds now, in another order
+			var all []int
+			for _, j := range r.Perm(len(wids)) {
+				all = append(all, cur[wids[j]])
+			}
+			B.feed(pool, all)
+		} else {
+			B.feed(pool, feed)
+		}
+		time.Sleep(2130 * time.Millisecond)
+		info["restaged-on-newer-block"] = n
+		info["recheck-bytes-grown"] = grown
+		info["recheck-bytes-shrunk"] = shrunk
+	}
+	step := uint64(rc.Step)
+	if step == 0 {
+		step = 1
+	}
+	s0 := rc.Seq0
+	shoot(s0)
+	recheck(r.Range(50, 100), true)
+	shoot(s0 + step)
+	recheck(r.Range(30, 100), false)
+	shoot(s0 + 2*step)
+	delete(info, "restaged-on-newer-block")
+	delete(info, "recheck-bytes-grown")
+	delete(info, "recheck-bytes-shrunk")
+	s3 := (s0+2*step)/10*10 + 10 + uint64(r.Intn(3))
+	time.Sleep(1130 * time.Millisecond)
+	shoot(s3)
+	recheck(r.Range(30, 100), false)
+	shoot(s3 + 1)
+	em.Hit("script=recheck")
+	em.Hit("recheck-drift=" + rc.Drift)
+	return shots
+}
+
 type c08ScriptRecipe struct {
 	Script    bool   `json:"script"` // discriminates a script from a world recipe
 	Seed      uint64 `json:"seed"`
@@ -234,6 +494,16 @@ type c08ScriptRecipe struct {
 	Readd     bool   `json:"readd"`
 	LongIDs   bool   `json:"longIDs"` // a structured work-id scheme with ids of 96 characters, many logs of two busy upkeeps
 	Shot      int    `json:"shot"` // the round this line is about (-1: all)
+	// variant "recheck": how the encodings of re-checked results compare with those of the results they replace
+	// (grow | shrink | mixed) and what the re-check's perform data looks like (same-len | other-len | mixed)
+	Drift  string `json:"drift,omitempty"`
+	PDMode string `json:"pdMode,omitempty"`
+	// Fit (recheck, at most 100 results): the perform data lengths are adjusted so that the first observation carries ALL
+	// results and ends this many bytes (+ at most 3) below MaxObservationLength: no trimming yet, any growth needs it
+	Fit int `json:"fit,omitempty"`
+	// Evals: between the Observation calls of a round the same instances also evaluate Outcome (twice) and Reports on the
+	// round's inputs, as libocr does on every node
+	Evals bool `json:"evals,omitempty"`
 }
 
 const c08GcInterval = 30 * time.Second // pkg/v3/stores/result_store.go gcInterval (regenerated as Gen.gcIntervalNs)
@@ -538,6 +808,9 @@ func c08RunScript(t *testing.T, rc c08ScriptRecipe, em *Emitter) []c08Shot {
 	if rc.Variant == "restage" {
 		return c08RunRestage(t, rc, em)
 	}
+	if rc.Variant == "recheck" {
+		return c08RunRecheck(t, rc, em)
+	}
 	var wgFn types.WorkIDGenerator
 	if rc.LongIDs {
 		wgFn = c08LongWorkID
@@ -723,7 +996,9 @@ func c08RunScript(t *testing.T, rc c08ScriptRecipe, em *Emitter) []c08Shot {
 		return out
 	}
 	var refeed []int
+	var prevOfLast *ocr2keepersv3.AutomationOutcome // the previous outcome the last round was run on
 	noSurface := map[string]bool{} // work that was surfaced once is not surfaced again by the script
+	stagedIdx := map[string]int{}  // … and the pool index of the result the final flows staged for it
 	var shots []c08Shot
 	info := map[string]int{}
 	for k := 0; k < rc.Shots; k++ {
@@ -838,7 +1113,11 @@ func c08RunScript(t *testing.T, rc c08ScriptRecipe, em *Emitter) []c08Shot {
 					n.accept(c[:min(len(c), r.Range(1, 3))])
 				}
 			}
-			if r.Chance(25) && k != boundary+1 {
+			prevPct := 25
+			if rc.Evals {
+				prevPct = 50
+			}
+			if r.Chance(prevPct) && k != boundary+1 {
 				// a small previous outcome: agrees on a few candidates, surfaces a held proposal
 				o := ocr2keepersv3.AutomationOutcome{AgreedPerformables: []ocr2keepers.CheckResult{}, SurfacedProposals: [][]ocr2keepers.CoordinatedBlockProposal{}}
 				if c := candidates(A); len(c) > 0 {
@@ -846,7 +1125,21 @@ func c08RunScript(t *testing.T, rc c08ScriptRecipe, em *Emitter) []c08Shot {
 						o.AgreedPerformables = append(o.AgreedPerformables, c[j])
 					}
 				}
-				if len(A.propOrd) > 0 && r.Chance(50) {
+				if rc.Evals && len(A.propOrd) > 0 && r.Chance(70) {
+					// … or up to three of them in one round
+					var round []ocr2keepers.CoordinatedBlockProposal
+					want := r.Range(1, 3)
+					for _, j := range r.Perm(len(A.propOrd)) {
+						if e, ok := A.props[A.propOrd[j]]; ok && !noSurface[e.res.WorkID] && len(round) < want {
+							sp := ocr2keepers.CoordinatedBlockProposal{UpkeepID: e.res.UpkeepID, Trigger: e.res.Trigger, WorkID: e.res.WorkID}
+							c08StampWithView(r, &sp, A.hist)
+							round = append(round, sp)
+						}
+					}
+					if len(round) > 0 {
+						o.SurfacedProposals = append(o.SurfacedProposals, round)
+					}
+				} else if len(A.propOrd) > 0 && r.Chance(50) {
 					if e, ok := A.props[A.propOrd[r.Intn(len(A.propOrd))]]; ok && !noSurface[e.res.WorkID] {
 						sp := ocr2keepers.CoordinatedBlockProposal{UpkeepID: e.res.UpkeepID, Trigger: e.res.Trigger, WorkID: e.res.WorkID}
 						c08StampWithView(r, &sp, A.hist) // coordinated on a recent block of the view
@@ -991,6 +1284,14 @@ func c08RunScript(t *testing.T, rc c08ScriptRecipe, em *Emitter) []c08Shot {
 				info["readd-gate-missed"] = 1
 			}
 		}
+		// the previous round did not commit (leader change, lost messages): libocr runs this one on the SAME previous outcome,
+		// which the instances have already been through once (Observation, Outcome and Reports decoded it)
+		rerun := false
+		if rc.Evals && prev == nil && prevOfLast != nil && k != boundary && k != boundary+1 && k != readdAt && r.Chance(60) {
+			prev, rerun = prevOfLast, true
+			info["rerun-on-same-previous-outcome"] = 1
+		}
+		prevOfLast = prev
 		time.Sleep(time.Duration(r.Range(114, 234)) * 10 * time.Millisecond)
 		synctest.Wait()
 		nodeX := [2]c08NodeX{A.view(pool, readdJ[0]), B.view(pool, nil)}
@@ -998,7 +1299,8 @@ func c08RunScript(t *testing.T, rc c08ScriptRecipe, em *Emitter) []c08Shot {
 		for kk, v := range info {
 			infoCopy[kk] = v
 		}
-		sh := c08TakeShot(digest, F, seq, pool, lens, nodeX, prev, [2]*Node{A.Node, B.Node}, infoCopy, nil)
+		sh := c08TakeShot(digest, F, seq, pool, lens, nodeX, prev, [2]*Node{A.Node, B.Node}, infoCopy, nil, rc.Evals)
+		delete(info, "rerun-on-same-previous-outcome")
 		if k == readdAt && len(readdRes) > 0 {
 			A.hook.mu.Lock()
 			fired := A.hook.fired
@@ -1012,7 +1314,7 @@ func c08RunScript(t *testing.T, rc c08ScriptRecipe, em *Emitter) []c08Shot {
 		B.afterShot(pool, prev, nil)
 		// AddToProposalQHook queued what the outcome surfaced: within a second the final flows check it on the coordinated
 		// block and stage the (eligible) result — unless the work is in flight on that node
-		if prev != nil {
+		if prev != nil && !rerun { // (a round run again queues the same proposals again: same check, same block, nothing new is staged)
 			stagedAny := false
 			defer0 := func() {
 				if stagedAny {
@@ -1032,6 +1334,7 @@ func c08RunScript(t *testing.T, rc c08ScriptRecipe, em *Emitter) []c08Shot {
 					pool = append(pool, res)
 					lens = append(lens, len(must(gojson.Marshal(res))))
 					noSurface[p.WorkID] = true
+					stagedIdx[p.WorkID] = len(pool) - 1
 					for _, n := range nodes {
 						if !n.pending[p.WorkID] {
 							n.stagedAt[len(pool)-1] = time.Now()
@@ -1041,6 +1344,22 @@ func c08RunScript(t *testing.T, rc c08ScriptRecipe, em *Emitter) []c08Shot {
 				}
 			}
 			defer0()
+			if rc.Evals {
+				// a report carrying the result of the LAST proposal of a round is in flight on node B only: B withholds it, the
+				// network agrees on the results of the other proposals of that round and keeps this one in the history
+				for _, round := range prev.SurfacedProposals {
+					if len(round) < 2 || !r.Chance(70) {
+						continue
+					}
+					w := round[len(round)-1].WorkID
+					if idx, ok := stagedIdx[w]; ok && !B.pending[w] {
+						if _, st := B.stagedAt[idx]; st {
+							B.accept([]ocr2keepers.CheckResult{pool[idx]})
+							info["surfaced-result-in-flight-on-one-node"] = 1
+						}
+					}
+				}
+			}
 		}
 		shots = append(shots, sh)
 		delete(info, "proposal-readded-during-observation")
@@ -1062,9 +1381,11 @@ func c08ScriptGen(r *Rng, i int) c08ScriptRecipe {
 	rc.Reorg = i%3 == 1
 	rc.Readd = i%5 == 2
 	rc.LongIDs = i%4 == 3
+	rc.Evals = i%2 == 0
 	if i%40 == 13 {
 		return c08ChurnScript(rc.Seed)
 	}
+
 	if i%8 == 6 {
 		return c08ScriptRecipe{Script: true, Seed: rc.Seed, Variant: "restage", NRes: []int{2, 9, 40, 110, 150}[r.Intn(5)], Seq0: rc.Seq0, Step: 1, Shot: -1}
 	}
@@ -1076,8 +1397,31 @@ func c08ChurnScript(seed uint64) c08ScriptRecipe {
 	return c08ScriptRecipe{Script: true, Seed: seed, Variant: "churn", NRes: 5500, Seq0: 10*(seed%400) + 3, Step: 1, Shots: 3, Shot: -1}
 }
 
+// c08RecheckScript: staged results replaced by re-checks between observations of one window, byte limit active (or reached
+// only by the re-checks: 88…99 results stay just below it at first)
+func c08RecheckScript(r *Rng, seed uint64, i int) c08ScriptRecipe {
+	rc := c08ScriptRecipe{Script: true, Seed: seed, Variant: "recheck", Shot: -1,
+		NRes:   []int{88, 92, 96, 100, 104, 110, 130}[r.Intn(7)],
+		Seq0:   uint64(r.Range(0, 300))*10 + uint64(r.Range(0, 4)),
+		Step:   r.Range(1, 2),
+		Drift:  []string{"grow", "mixed", "grow", "shrink"}[i%4],
+		PDMode: []string{"same-len", "mixed", "same-len", "other-len"}[r.Intn(4)],
+		Evals:  r.Chance(30)}
+	if i%2 == 0 { // every result fits, the observation ends just below the limit
+		rc.NRes = []int{80, 90, 96, 100}[r.Intn(4)]
+		rc.Fit = []int{1, 4, 200, 3000}[r.Intn(4)] + r.Intn(3)
+	}
+	return rc
+}
+
 func c08ScriptEdge() []c08ScriptRecipe {
 	return []c08ScriptRecipe{
+		{Script: true, Seed: 112, Variant: "recheck", NRes: 104, Seq0: 131, Step: 1, Shot: -1, Drift: "grow", PDMode: "same-len"},
+		{Script: true, Seed: 113, Variant: "recheck", NRes: 96, Seq0: 140, Step: 2, Shot: -1, Drift: "mixed", PDMode: "mixed"},
+		{Script: true, Seed: 116, Variant: "recheck", NRes: 100, Seq0: 172, Step: 1, Shot: -1, Drift: "grow", PDMode: "same-len", Fit: 1},
+		{Script: true, Seed: 117, Variant: "recheck", NRes: 84, Seq0: 180, Step: 1, Shot: -1, Drift: "mixed", PDMode: "same-len", Fit: 2500},
+		{Script: true, Seed: 114, Variant: "agreed-refeed", NRes: 40, Seq0: 157, Step: 1, Shots: 8, Shot: -1, Evals: true},
+		{Script: true, Seed: 115, Variant: "none", NRes: 20, Seq0: 163, Step: 1, Shots: 8, Shot: -1, Evals: true, Readd: true},
 		{Script: true, Seed: 101, Variant: "inflight-release", NRes: 120, Seq0: 8, Step: 1, Shots: 6, Shot: -1},
 		{Script: true, Seed: 102, Variant: "agreed-refeed", NRes: 40, Seq0: 18, Step: 1, Shots: 5, Shot: -1, BothEmpty: true},
 		{Script: true, Seed: 103, Variant: "expire-refeed", NRes: 130, Seq0: 29, Step: 2, Shots: 5, Shot: -1},
